@@ -36,7 +36,7 @@ pub fn meta(tier: Tier) -> CheckMeta {
                for equal content under different types. distinct = hash(round config); non-trivial = round in \
                which an entry was dropped to zero handles and interned again (revival) at least once.",
         assumptions: vec!["interleavings are sampled; the monitor itself is sound (no false alarm by construction)".into()],
-        parts: vec![PartSpec { name: "native", nshards: 8, budget_s: tier.pick(300, 2400), env: vec![], program: None }],
+        parts: vec![PartSpec { name: "native", nshards: 8, budget_s: tier.pick(300, 2400), env: vec![], program: None, prepare: None, sanitizer: None }],
         must_be_nonzero: vec![("revivals", "no value was dropped to zero handles and interned again"), ("hook_hits_intern_miss", "read-miss window never reached")],
     }
 }
@@ -377,7 +377,7 @@ pub fn worker(ctx: &WorkerCtx) -> Report {
     hooks::install();
     let mut rep = Report::default();
     let base = Rng::new(ctx.seed).derive(1500 + ctx.shard as u64);
-    let n: u64 = if ctx.part == "miri" { 2 } else { ctx.tier.pick(60, 1500) };
+    let n: u64 = if ctx.part == "miri" { 2 } else { ctx.pick(400, 6000) };
     let mut seen = std::collections::HashSet::new();
     for i in 0..n {
         let mut r = base.derive(i);
@@ -386,7 +386,7 @@ pub fn worker(ctx: &WorkerCtx) -> Report {
             domain: *r.pick(&[8usize, 8, 16, 32]),
             shards: *r.pick(&[2usize, 2, 4, 16]),
             vacuum_thread: ctx.part != "miri" && r.chance(1, 2),
-            ops: if ctx.part == "miri" { 14 } else { ctx.tier.pick(4_000, 20_000) },
+            ops: if ctx.part == "miri" { 14 } else { ctx.pick(4_000, 20_000) },
             delay: r.chance(1, 2),
         };
         let case = format!("C15 round {i} threads={} domain={} shards={} vacuum_thread={} ops={} delay={}", c.threads, c.domain, c.shards, c.vacuum_thread, c.ops, c.delay);
